@@ -215,6 +215,10 @@ func (env *SpecEnv) evalIdent(name string) Val {
 	if v, ok := env.vars[name]; ok {
 		return v
 	}
+	// variable captured by a closure (free variable: a pointer to the captured variable)
+	if p, ok := env.vars["&"+name]; ok {
+		return env.loadPtr(p)
+	}
 	// hidden loop state: $idx (range-over-slice index), $seen (set of keys already visited by a range-over-map)
 	if name == "$idx" || name == "$seen" {
 		var cands []*Loop
@@ -482,6 +486,11 @@ func (env *SpecEnv) evalSlice(x *SExpr) Val {
 
 func (env *SpecEnv) evalUn(x *SExpr) Val {
 	if x.Name == "&" {
+		if x.Args[0].Op == "ident" {
+			if p, ok := env.vars["&"+x.Args[0].Name]; ok {
+				return p // address of a variable captured by the closure
+			}
+		}
 		// address of a heap-allocated local variable
 		if x.Args[0].Op == "ident" && env.fn != nil {
 			if a := env.st.eng.localByName(env.fn, x.Args[0].Name); a != nil {
